@@ -35,6 +35,9 @@ impl Head {
 
     pub fn write(&mut self, data: &[u8]) -> Result<(), IoError> {
         fail_point!("write-head");
+        // read handles cached for the head file are clones of this one and share its cursor:
+        // a retrieve may have moved it away from the end
+        self.file.seek(SeekFrom::Start(self.bytes))?;
         self.file.write_all(data)?;
         self.bytes += data.len() as u64;
         Ok(())
